@@ -206,12 +206,9 @@ func genStmt(r *rng, c *CrashCfg, e *Exec, mt *MTxn, kg *keyGen) *Stmt {
 		}
 	}
 	switch {
-	case kind <= 3: // insert 1-4 rows
-		n := 1 + r.Intn(4)
+	case kind <= 3: // insert (the SQL front end takes one row per INSERT statement)
 		st := &Stmt{Kind: "insert", Table: ts.Name, Cols: colNames(ts)}
-		for i := 0; i < n; i++ {
-			st.Rows = append(st.Rows, genRow(r, ts, kg.fresh(ts.Name)))
-		}
+		st.Rows = append(st.Rows, genRow(r, ts, kg.fresh(ts.Name)))
 		return st
 	case kind <= 6: // update
 		st := &Stmt{Kind: "update", Table: ts.Name, Where: keyPred()}
@@ -372,6 +369,8 @@ type Fault struct {
 	Tear  *Tear  `json:"tear,omitempty"`
 	Depth int    `json:"depth,omitempty"`
 	Phase string `json:"phase,omitempty"`
+	GCDone    bool `json:"gc_done,omitempty"`    // nested: the recovery run had already truncated the log
+	LoserData bool `json:"loser_data,omitempty"` // nested: the first crash image had a loser with data records (undo has work)
 }
 
 type Violation struct {
